@@ -11,5 +11,8 @@ func Yield(name string) {}
 // Crash marks a durability-relevant step.
 func Crash(name string) {}
 
+// Flag reports whether the harness switched the named behaviour on.
+func Flag(name string) bool { return false }
+
 // Enabled reports whether hooks are compiled in.
 func Enabled() bool { return false }
